@@ -22,12 +22,15 @@ MEMBERS = {
     "a": '~id:a~ $[*][ push("s", line_number()) gt(line_number(), symta()) print("a $.csvpath.line_number") ]',
     "b": '~id:b~ $[*][ stop(symkb() == line_number()) @c = count_lines() gt(line_number(), symtb()) ]',
     "c": '~id:c return-mode: no-matches~ $[*][ push("u", line_number()) gt(line_number(), symtc()) ]',
+    "d": '~id:d run-mode: no-run~ $[*][ push("w", line_number()) print("d ran") ]',
 }
+# the same file with a blank first line (the headers are then the first non-blank record)
+DATA_LEAD_BLANK = "\n" + kitpaths.DATA
 ND = kitpaths.NDATA
 
 
-def _state(p, lines, printouts):
-    return ([list(x) for x in lines], kitpaths.plain_vars(p.variables), list(printouts), p.is_valid, p.scan_count, p.match_count)
+def _state(p, lines, printouts, valid=None):
+    return ([list(x) for x in lines], kitpaths.plain_vars(p.variables), list(printouts), p.is_valid if valid is None else valid, p.scan_count, p.match_count)
 
 
 def _standalone(text):
@@ -44,7 +47,8 @@ def _standalone(text):
 def _group_states(cs):
     out = []
     for r in cs.results_manager.get_named_results("g"):
-        out.append(_state(r.csvpath, kitpaths.result_lines(r), r.printouts))
+        # validity as the results manager reports it for the member (Result.is_valid), not only the csvpath's own flag
+        out.append(_state(r.csvpath, kitpaths.result_lines(r), r.printouts, valid=(r.is_valid and r.csvpath.is_valid) if r.csvpath.will_run else r.csvpath.is_valid))
     return out
 
 
@@ -65,20 +69,22 @@ ENC = ["csvpath/csvpaths.py:CsvPaths.collect_paths/_load_csvpath/collect_by_line
     outside="groups of 4; symbolic cell text (the symbolic ints are realised when results are archived, so the solver drives a "
     "walk over the box; each path ends in a z3-checked assertion); next_*/fast_forward_* variants (thorough)",
     encodes=ENC,
-    tiers={"quick": {"timeout": 1800, "K": {"LO": -1, "HI": 4}, "shards": product(order=["ab"], tc=[0], tb=[0], kb=[-1, 2], agree=[False, True]) + product(order=["ba"], tc=[0], tb=[0], kb=[1], agree=[False, True])
+    tiers={"quick": {"timeout": 2400, "K": {"LO": -1, "HI": 3}, "shards": product(order=["ab"], tc=[0], tb=[0], kb=[-1, 2], agree=[False, True]) + product(order=["ba"], tc=[0], tb=[0], kb=[1], agree=[False, True])
                      + product(order=["ac", "ca"], tb=[0], kb=[-1], agree=[False, True], ta=[1])
-                     + product(order=["ab"], tc=[0], tb=[0], kb=[2], agree=[False], kind=["ff", "next"])},
+                     + product(order=["ab"], tc=[0], tb=[0], kb=[2], agree=[False], kind=["ff", "next"])
+                     + product(order=["ad", "da"], tc=[0], tb=[0], kb=[-1], agree=[False]) + product(order=["ab"], tc=[0], tb=[0], kb=[2], agree=[False], lead=[True])},
            "thorough": {"timeout": 6000, "K": {"LO": -1, "HI": 5}, "shards": product(order=["ab", "ba", "abc", "cab"], agree=[False, True], tb=[-1, 1, 3], tc=[0, 2])
-                     + product(order=["ab", "cab"], agree=[False, True], tb=[0], tc=[1], kind=["ff", "next"])}},
+                     + product(order=["ab", "cab"], agree=[False, True], tb=[0], tc=[1], kind=["ff", "next"])
+                     + product(order=["ad", "da", "adb"], agree=[False, True], tb=[0], tc=[1]) + product(order=["ab", "ca"], agree=[False, True], tb=[0], tc=[1], lead=[True])}},
 )
-def schedules(order: str, agree: bool, ta: int, tb: int, kb: int, tc: int, kind: str = "collect") -> str:
+def schedules(order: str, agree: bool, ta: int, tb: int, kb: int, tc: int, kind: str = "collect", lead: bool = False) -> str:
     kit.HOLD["symta"] = ta
     kit.HOLD["symtb"] = tb
     kit.HOLD["symkb"] = kb
     kit.HOLD["symtc"] = tc
     texts = [MEMBERS[m] for m in order]
     with NoTracing():
-        root, cs = kitpaths.env({"g": texts})
+        root, cs = kitpaths.env({"g": texts}, data=DATA_LEAD_BLANK if lead else kitpaths.DATA)
     alone = [_standalone(t) for t in texts]
     with NoTracing():
         cs2 = kitpaths.new_instance()
@@ -87,6 +93,8 @@ def schedules(order: str, agree: bool, ta: int, tb: int, kb: int, tc: int, kind:
         cs.collect_paths(filename="data", pathsname="g")
         got = cs2.collect_by_line(filename="data", pathsname="g", if_all_agree=agree)
     elif kind == "ff":
+        # the serial instance is reused: an earlier run of the same group must not leak into this one
+        cs.collect_paths(filename="data", pathsname="g")
         cs.fast_forward_paths(filename="data", pathsname="g")
         cs2.fast_forward_by_line(filename="data", pathsname="g", if_all_agree=agree)
         got = None
@@ -98,6 +106,8 @@ def schedules(order: str, agree: bool, ta: int, tb: int, kb: int, tc: int, kind:
     with NoTracing():
         kitpaths.cleanup(root)
     problems = ""
+    if len(serial) != len(order) or len(byline) != len(order):
+        return "the group has %d members but the serial run left %d results and the breadth-first run %d" % (len(order), len(serial), len(byline))
     for i, m in enumerate(order):
         a, se, by = alone[i], serial[i], byline[i]
         if kind != "collect":
@@ -117,6 +127,8 @@ def schedules(order: str, agree: bool, ta: int, tb: int, kb: int, tc: int, kind:
     want = []
     recs = _records()
     for ln, rec in enumerate(recs):
+        if not rec:
+            continue
         votes = []
         for i in range(len(order)):
             lines, _v, _p, _valid, scans, _mc = alone[i]
@@ -137,3 +149,7 @@ def _records():
     import io
 
     return [r for r in csv.reader(io.StringIO(kitpaths.DATA))]
+
+
+def _votes_base(lead):
+    return 1 if lead else 0
